@@ -16,7 +16,13 @@ import (
 // syntax#refill-at-boundary@<func>:<line>: every comparison that involves the length of p.bs, or of a slice derived
 // from it, and that lies outside the refill primitives fill/peek/peekTwo, has a call of fill in its own block, in a
 // predecessor or in a successor block (the test exists to decide whether to refill, or follows a refill that reported
-// end of input).
+// end of input). The same holds for every call that receives an *open-ended* slice of the buffer (p.bs[i:] -- its
+// extent is whatever happens to be buffered), e.g. bytes.HasPrefix or utf8.FullRune; utf8.DecodeRune is exempt when a
+// utf8.FullRune test on the same bytes follows (the decode is then re-done after the refill).
+//
+// Obligation syntax#refill-retry@<func>:<line>: a test that may need more than one further byte (anything but the
+// plain `p.bsp >= len(p.bs)` comparison) must be re-evaluated after the refill, because one refill may deliver a
+// single byte: the adjacent fill call lies on a cycle.
 
 func init() {
 	propGens["C07"] = append(propGens["C07"], genRefill)
@@ -94,58 +100,407 @@ func blockCallsFill(b *ssa.BasicBlock) bool {
 	return false
 }
 
-func genRefill(P *Program, CS *ContractSet, tier string) ([]*Obligation, []string, []string) {
-	var obls []*Obligation
-	prim := map[string]bool{"syntax.Parser.fill": true, "syntax.Parser.peek": true, "syntax.Parser.peekTwo": true}
-	occ := map[string]int{}
-	n := 0
-	for _, f := range pkgFunctions(P, syntaxPkg) {
-		if prim[shortFuncName(f)] {
-			continue
+// cursorMove: the instruction may move the read cursor or consume input (a store to p.bsp, or a call of a Parser
+// method other than the lookahead primitives).
+func cursorMove(ins ssa.Instruction) bool {
+	switch y := ins.(type) {
+	case *ssa.Store:
+		if fa, isFA := y.Addr.(*ssa.FieldAddr); isFA {
+			if n, isN := types.Unalias(derefType(fa.X.Type())).(*types.Named); isN && n.Obj().Name() == "Parser" && n.Obj().Pkg() != nil && n.Obj().Pkg().Path() == syntaxPkg {
+				return n.Underlying().(*types.Struct).Field(fa.Field).Name() == "bsp"
+			}
 		}
-		for _, b := range f.Blocks {
-			for _, ins := range b.Instrs {
-				bo, ok := ins.(*ssa.BinOp)
-				if !ok {
-					continue
-				}
-				switch bo.Op {
-				case token.LSS, token.LEQ, token.GTR, token.GEQ, token.EQL, token.NEQ:
-				default:
-					continue
-				}
-				if !isLenOfBs(bo.X, 0) && !isLenOfBs(bo.Y, 0) {
-					continue
-				}
-				n++
-				adjacent := blockCallsFill(b)
-				for _, p := range b.Preds {
-					if blockCallsFill(p) {
-						adjacent = true
-					}
-				}
-				for _, s := range b.Succs {
-					if blockCallsFill(s) {
-						adjacent = true
-					}
-				}
-				base := fmt.Sprintf("syntax#refill-at-boundary@%s:%s", strings.TrimPrefix(shortFuncName(f), "syntax."), srcLine(P, ins.Pos()))
-				occ[base]++
-				name := base
-				if occ[base] > 1 {
-					name = fmt.Sprintf("%s~%d", base, occ[base])
-				}
-				d := "a test of how many input bytes are currently buffered (length of p.bs or of a slice of it) must only decide whether to refill: a call of fill is adjacent to it"
-				if !adjacent {
-					d += "; here no refill is adjacent, so the outcome depends on how the reader chunked the input"
-				}
-				obls = append(obls, structOb(name, "structural", adjacent, d, posStr(P, P.Prog.Fset, ins.Pos())))
+	case ssa.CallInstruction:
+		if cal := y.Common().StaticCallee(); cal != nil {
+			switch shortFuncName(cal) {
+			case "syntax.Parser.peek", "syntax.Parser.peekTwo", "syntax.Parser.fill":
+				return false
+			}
+			if cal.Signature.Recv() != nil && strings.HasPrefix(shortFuncName(cal), "syntax.Parser.") {
+				return true
 			}
 		}
 	}
-	obls = append(obls, structOb("syntax#refill-at-boundary@tests-found", "structural", n >= 2,
-		fmt.Sprintf("buffer-boundary tests found outside fill/peek/peekTwo: %d (at least 2 expected)", n), ""))
+	return false
+}
+
+func instrCallsFill(ins ssa.Instruction) bool {
+	if ci, ok := ins.(ssa.CallInstruction); ok {
+		if callee := ci.Common().StaticCallee(); callee != nil && shortFuncName(callee) == "syntax.Parser.fill" {
+			return true
+		}
+	}
+	return false
+}
+
+// isBoundaryTest: comparison involving the length of the buffer or of a slice of it.
+func isBoundaryTest(ins ssa.Instruction) (*ssa.BinOp, bool) {
+	bo, ok := ins.(*ssa.BinOp)
+	if !ok {
+		return nil, false
+	}
+	switch bo.Op {
+	case token.LSS, token.LEQ, token.GTR, token.GEQ, token.EQL, token.NEQ:
+	default:
+		return nil, false
+	}
+	if !isLenOfBs(bo.X, 0) && !isLenOfBs(bo.Y, 0) {
+		return nil, false
+	}
+	return bo, true
+}
+
+// refillPoints finds, for the instruction at index idx of block b, the refill points that cover it: fill calls that
+// follow it directly (a successor block calls fill: the test decides whether to refill), and, walking the CFG
+// backwards without crossing a cursor move, fill calls or earlier boundary tests whose successor calls fill.
+// ok is false if some backward path reaches a cursor move or the function entry first.
+func refillPoints(b *ssa.BasicBlock, idx int) (fills []*ssa.BasicBlock, ok bool) {
+	if bo, isT := isBoundaryTest(b.Instrs[idx]); isT {
+		if fs, fok := forwardRefill(b, bo); fok {
+			return fs, true
+		}
+	}
+	for _, sx := range b.Succs {
+		if blockCallsFill(sx) {
+			return []*ssa.BasicBlock{sx}, true
+		}
+	}
+	for i := idx + 1; i < len(b.Instrs); i++ {
+		if instrCallsFill(b.Instrs[i]) {
+			return []*ssa.BasicBlock{b}, true
+		}
+	}
+	ok = true
+	seen := map[*ssa.BasicBlock]bool{}
+	var walk func(cur *ssa.BasicBlock, from int)
+	walk = func(cur *ssa.BasicBlock, from int) {
+		for i := from; i >= 0; i-- {
+			if instrCallsFill(cur.Instrs[i]) {
+				fills = append(fills, cur)
+				return
+			}
+			if cursorMove(cur.Instrs[i]) {
+				ok = false
+				return
+			}
+		}
+		if len(cur.Preds) == 0 {
+			ok = false
+			return
+		}
+		for _, p := range cur.Preds {
+			if seen[p] {
+				continue
+			}
+			seen[p] = true
+			// an earlier boundary test that leads to a refill when needed
+			covered := false
+			for _, ins := range p.Instrs {
+				if _, isT := isBoundaryTest(ins); isT {
+					for _, sx := range p.Succs {
+						if blockCallsFill(sx) {
+							fills = append(fills, sx)
+							covered = true
+						}
+					}
+				}
+			}
+			if covered {
+				continue
+			}
+			walk(p, len(p.Instrs)-1)
+		}
+	}
+	walk(b, idx-1)
+	return fills, ok && len(fills) > 0
+}
+
+// fewSide returns the successor of b taken when the boundary test bo (which must directly control b's branch) means
+// "fewer bytes are buffered" (nil if it cannot be told).
+func fewSide(b *ssa.BasicBlock, bo *ssa.BinOp) *ssa.BasicBlock {
+	iff, isIf := lastInstr(b).(*ssa.If)
+	if !isIf || iff.Cond != ssa.Value(bo) || len(b.Succs) != 2 {
+		return nil
+	}
+	lenOnX := isLenOfBs(bo.X, 0)
+	if lenOnX && isLenOfBs(bo.Y, 0) {
+		return nil
+	}
+	isZero := func(v ssa.Value) bool {
+		c, ok := v.(*ssa.Const)
+		return ok && c.Value != nil && c.Value.ExactString() == "0"
+	}
+	op := bo.Op
+	other := bo.Y
+	if !lenOnX {
+		other = bo.X
+		switch op { // k op len  ==  len op' k
+		case token.LSS:
+			op = token.GTR
+		case token.LEQ:
+			op = token.GEQ
+		case token.GTR:
+			op = token.LSS
+		case token.GEQ:
+			op = token.LEQ
+		}
+	}
+	switch op {
+	case token.LSS, token.LEQ:
+		return b.Succs[0]
+	case token.GTR, token.GEQ:
+		return b.Succs[1]
+	case token.EQL:
+		if isZero(other) {
+			return b.Succs[0]
+		}
+	case token.NEQ:
+		if isZero(other) {
+			return b.Succs[1]
+		}
+	}
+	return nil
+}
+
+// lenArgOf returns the slice whose length the comparison tests directly (len(x) against something), or nil.
+func lenArgOf(bo *ssa.BinOp) ssa.Value {
+	for _, v := range []ssa.Value{bo.X, bo.Y} {
+		if c, ok := v.(*ssa.Call); ok {
+			if b, ok := c.Call.Value.(*ssa.Builtin); ok && b.Name() == "len" && len(c.Call.Args) == 1 {
+				return c.Call.Args[0]
+			}
+		}
+	}
+	return nil
+}
+
+func zeroCompared(bo *ssa.BinOp) bool {
+	for _, v := range []ssa.Value{bo.X, bo.Y} {
+		if c, ok := v.(*ssa.Const); ok && c.Value != nil && c.Value.ExactString() == "0" {
+			return true
+		}
+	}
+	return false
+}
+
+// bufferFullTest: b ends in a boundary test against the constant buffer size; a full buffer cannot be refilled, so
+// giving up there does not depend on how the input arrived. Returns the successor for "not full".
+func bufferFullTest(b *ssa.BasicBlock) *ssa.BasicBlock {
+	iff, isIf := lastInstr(b).(*ssa.If)
+	if !isIf {
+		return nil
+	}
+	bo, isT := iff.Cond.(*ssa.BinOp)
+	if !isT {
+		return nil
+	}
+	if _, ok := isBoundaryTest(bo); !ok {
+		return nil
+	}
+	isBufSize := func(v ssa.Value) bool {
+		c, ok := v.(*ssa.Const)
+		return ok && c.Value != nil && c.Value.ExactString() == "1024"
+	}
+	if !isBufSize(bo.X) && !isBufSize(bo.Y) {
+		return nil
+	}
+	return fewSide(b, bo)
+}
+
+// forwardRefill: the comparison bo directly controls the branch at the end of b, and on the outcome that means "too
+// few bytes are buffered" every path reaches a fill call before it returns or moves the cursor (except by finding the
+// buffer full).
+func forwardRefill(b *ssa.BasicBlock, bo *ssa.BinOp) (fills []*ssa.BasicBlock, ok bool) {
+	few := fewSide(b, bo)
+	if few == nil {
+		return nil, false
+	}
+	ok = true
+	seen := map[*ssa.BasicBlock]bool{}
+	var walk func(cur *ssa.BasicBlock)
+	walk = func(cur *ssa.BasicBlock) {
+		if seen[cur] {
+			return
+		}
+		seen[cur] = true
+		for _, ins := range cur.Instrs {
+			if instrCallsFill(ins) {
+				fills = append(fills, cur)
+				return
+			}
+			if cursorMove(ins) {
+				ok = false
+				return
+			}
+		}
+		if len(cur.Succs) == 0 {
+			ok = false
+			return
+		}
+		if nf := bufferFullTest(cur); nf != nil {
+			walk(nf)
+			return
+		}
+		// the same length tested again has the same outcome
+		if iff, isIf := lastInstr(cur).(*ssa.If); isIf {
+			if bo2, isT := iff.Cond.(*ssa.BinOp); isT {
+				if _, isB := isBoundaryTest(bo2); isB && lenArgOf(bo2) != nil && lenArgOf(bo2) == lenArgOf(bo) && zeroCompared(bo) && zeroCompared(bo2) {
+					if f2 := fewSide(cur, bo2); f2 != nil {
+						walk(f2)
+						return
+					}
+				}
+			}
+		}
+		for _, sx := range cur.Succs {
+			walk(sx)
+		}
+	}
+	walk(few)
+	return fills, ok && len(fills) > 0
+}
+
+func genRefill(P *Program, CS *ContractSet, tier string) ([]*Obligation, []string, []string) {
+	var obls []*Obligation
+	occ := map[string]int{}
+	uniq := func(base string) string {
+		occ[base]++
+		if occ[base] > 1 {
+			return fmt.Sprintf("%s~%d", base, occ[base])
+		}
+		return base
+	}
+	n := 0
+	for _, f := range pkgFunctions(P, syntaxPkg) {
+		if shortFuncName(f) == "syntax.Parser.fill" {
+			continue
+		}
+		succ := make([][]int, len(f.Blocks))
+		for _, x := range f.Blocks {
+			for _, sx := range x.Succs {
+				succ[x.Index] = append(succ[x.Index], sx.Index)
+			}
+		}
+		fullRuneChecked := false
+		for _, b := range f.Blocks {
+			for _, ins := range b.Instrs {
+				if c, ok := ins.(*ssa.Call); ok {
+					if callee := c.Common().StaticCallee(); callee != nil && callee.Pkg != nil && callee.Pkg.Pkg.Path() == "unicode/utf8" && callee.Name() == "FullRune" {
+						fullRuneChecked = true
+					}
+				}
+			}
+		}
+		fn := strings.TrimPrefix(shortFuncName(f), "syntax.")
+		for _, b := range f.Blocks {
+			for idx, ins := range b.Instrs {
+				multi := false
+				what := "a test of how many input bytes are currently buffered (length of p.bs or of a slice of it)"
+				if bo, isT := isBoundaryTest(ins); isT {
+					multi = !plainBoundaryTest(bo)
+				} else if c, isCall := ins.(*ssa.Call); isCall {
+					if _, isBuiltin := c.Call.Value.(*ssa.Builtin); isBuiltin {
+						continue // len is a boundary test above; append/copy take their extent from the other operand
+					}
+					open := false
+					for _, a := range c.Call.Args {
+						if openEndedBs(a, 0, map[ssa.Value]bool{}) {
+							open = true
+						}
+					}
+					if !open {
+						continue
+					}
+					if callee := c.Common().StaticCallee(); callee != nil && callee.Pkg != nil && callee.Pkg.Pkg.Path() == "unicode/utf8" && strings.HasPrefix(callee.Name(), "DecodeRune") && fullRuneChecked {
+						continue
+					}
+					multi = true
+					what = "a call that receives an open-ended slice of the buffer (its extent is whatever happens to be buffered)"
+				} else {
+					continue
+				}
+				n++
+				fills, ok := refillPoints(b, idx)
+				line := srcLine(P, ins.Pos())
+				d := what + " must only decide whether to refill, or follow a refill with no input consumed in between"
+				if !ok {
+					d += "; here some path reaches it after the cursor moved without a refill, so the outcome depends on how the reader chunked the input"
+				}
+				obls = append(obls, structOb(uniq(fmt.Sprintf("syntax#refill-at-boundary@%s:%s", fn, line)), "structural", ok, d, posStr(P, P.Prog.Fset, ins.Pos())))
+				if !multi || !ok {
+					continue
+				}
+				retried := true
+				for _, fb := range fills {
+					if !reachesItself(fb.Index, succ) {
+						retried = false
+					}
+				}
+				d = "a buffer test that may need more than one further byte is covered by a refill that is retried (one refill may deliver a single byte): the fill call lies on a cycle"
+				if !retried {
+					d += "; here the refill is attempted once only, so a reader delivering one byte at a time changes the outcome"
+				}
+				obls = append(obls, structOb(uniq(fmt.Sprintf("syntax#refill-retry@%s:%s", fn, line)), "structural", retried, d, posStr(P, P.Prog.Fset, ins.Pos())))
+			}
+		}
+	}
+	obls = append(obls, structOb("syntax#refill-at-boundary@tests-found", "structural", n >= 8,
+		fmt.Sprintf("buffer-boundary tests found outside fill: %d (at least 8 expected)", n), ""))
 	return obls, []string{"syntax (all functions: buffer-boundary tests)"}, []string{
-		"C07: only decisions that test the amount of buffered input are covered; that fill/peek/peekTwo themselves return a function of the input stream alone is not proved here",
+		"C07: only decisions that test the amount of buffered input are covered; that fill itself delivers the same byte sequence for every chunking is not proved here",
 	}
 }
+
+// openEndedBs: v is a slice expression of the buffer without an explicit upper bound (or a phi / re-slice of one).
+func openEndedBs(v ssa.Value, depth int, seen map[ssa.Value]bool) bool {
+	if depth > 6 || seen[v] {
+		return false
+	}
+	seen[v] = true
+	if isParserField(v, "bs") {
+		return true
+	}
+	switch x := v.(type) {
+	case *ssa.Slice:
+		if x.High != nil {
+			return false
+		}
+		return derivedFromBs(x.X, 0, map[ssa.Value]bool{})
+	case *ssa.Phi:
+		for _, e := range x.Edges {
+			if openEndedBs(e, depth+1, seen) {
+				return true
+			}
+		}
+	}
+	return false
+}
+
+// plainBoundaryTest: the comparison is between p.bsp (possibly converted) and len(p.bs) (possibly converted): it asks
+// for one further byte, which a successful fill always delivers.
+func plainBoundaryTest(bo *ssa.BinOp) bool {
+	strip := func(v ssa.Value) ssa.Value {
+		for {
+			c, ok := v.(*ssa.Convert)
+			if !ok {
+				return v
+			}
+			v = c.X
+		}
+	}
+	isBsp := func(v ssa.Value) bool { return isParserField(strip(v), "bsp") }
+	isLen := func(v ssa.Value) bool {
+		c, ok := strip(v).(*ssa.Call)
+		if !ok {
+			return false
+		}
+		b, ok := c.Call.Value.(*ssa.Builtin)
+		return ok && b.Name() == "len" && len(c.Call.Args) == 1 && isParserField(c.Call.Args[0], "bs")
+	}
+	isZero := func(v ssa.Value) bool {
+		c, ok := v.(*ssa.Const)
+		return ok && c.Value != nil && c.Value.ExactString() == "0"
+	}
+	return (isBsp(bo.X) && isLen(bo.Y)) || (isLen(bo.X) && isBsp(bo.Y)) || (isLen(bo.X) && isZero(bo.Y)) || (isZero(bo.X) && isLen(bo.Y))
+}
+
